@@ -43,7 +43,7 @@ SCOPES = (
 )
 
 
-def make_spec(ta, tb, funcs, functions=True):
+def make_spec(ta, tb, funcs, functions=True, target="x64-elf"):
     seen = set()
     blocks = []
     for j, (nm, t, f) in enumerate((("A", ta, funcs[0]), ("B", tb, funcs[1]), ("C", ["ret"], funcs[2]))):
@@ -52,7 +52,7 @@ def make_spec(ta, tb, funcs, functions=True):
         b = scen.code_block(nm, [10 * (j + 1)] if t else [10 * (j + 1), 10 * (j + 1) + 1], t, f=f, e=ent)
         blocks.append(b)
     blocks.append(scen.data_block("D", [1, 2]))
-    sp = scen.spec_of(blocks, functions=functions)
+    sp = scen.spec_of(blocks, functions=functions, target=target)
     sp["entry_point"] = "A"
     return sp
 
@@ -177,7 +177,7 @@ def run_case(spec, regs):
 
                     def asm(ic, ri=ri):
                         log.append((ri, names.get(id(ic.block), "?"), ic.offset, ic.function.get_name() if ic.function else None))
-                        return "movb $%d, %%bl" % (100 + len(log))
+                        return isa_.asm(("p", 100 + len(log)))
 
                     try:
                         ctx.register_insert(build_scope(w, sc, pos), Patch.from_function(asm, Constraints()))
@@ -242,6 +242,10 @@ def tasks(tier):
         t.append(("single", ai, bi))
     for ai, bi in ((0, 4), (3, 1), (2, 5), (6, 0)) if tier == "quick" else itertools.product(range(len(TERMS)), repeat=2):
         t.append(("multi", ai, bi))
+    # the offsets come from disassembly: repeat the single registrations on ARM64 (4-byte instructions)
+    for ai, bi in itertools.product(range(len(TERMS) - 1), repeat=2):
+        if tier == "thorough" or (ai + bi) % 2 == 0:
+            t.append(("single-arm64", ai, bi))
     return t
 
 
@@ -253,19 +257,20 @@ def run_task(task):
     mode, ai, bi = task
     res = TaskResult()
     ta, tb = TERMS[ai], TERMS[bi]
-    if mode == "single":
-        for fi, funcs in enumerate(FUNCS):
+    if mode in ("single", "single-arm64"):
+        target = "arm64-elf" if mode == "single-arm64" else "x64-elf"
+        for fi, funcs in enumerate(FUNCS if mode == "single" else FUNCS[:2]):
             for functions in (True, False):
                 if not functions and fi > 0:
                     continue
-                spec = make_spec(ta, tb, funcs, functions)
+                spec = make_spec(ta, tb, funcs, functions, target)
                 for sc in SCOPES:
                     for pos in POS:
                         regs = [(0, sc, pos)]
                         diffs, outcome, nd = run_case(spec, regs)
-                        res.case((ai, bi, fi, functions, regs), nontrivial=nd > 0, outcome=outcome)
+                        res.case((target, ai, bi, fi, functions, regs), nontrivial=nd > 0, outcome=outcome)
                         if diffs:
-                            res.bad({"ta": ai, "tb": bi, "funcs": fi, "functions": functions, "regs": [list(r) for r in regs]}, diffs)
+                            res.bad({"ta": ai, "tb": bi, "funcs": fi, "functions": functions, "regs": [list(r) for r in regs], "target": target}, diffs)
         res.sample({"module": [ta, tb, list(FUNCS[0])], "regs": [[0, ["all", None], "EXIT"]]}, cap=1)
         return res
     # several registrations, 1-2 passes
@@ -284,6 +289,6 @@ def run_task(task):
 
 
 def replay(case):
-    spec = make_spec(TERMS[case["ta"]], TERMS[case["tb"]], FUNCS[case["funcs"]], case["functions"])
+    spec = make_spec(TERMS[case["ta"]], TERMS[case["tb"]], FUNCS[case["funcs"]], case["functions"], case.get("target", "x64-elf"))
     regs = [(r[0], r[1], r[2]) for r in case["regs"]]
     return run_case(spec, regs)[0]
